@@ -92,6 +92,10 @@ class ColumnBackend(ArraySchemaBackend):
                     error_handler.collect_error(
                         validation_type(err.reason_code), err.reason_code, err
                     )
+                if return_check_obj and schema.parsers:
+                    # the parsed column is still what the rest of the
+                    # validation (e.g. drop_invalid_rows) works with
+                    return errs.data
             except SchemaError as err:
                 err.column_name = column_name
                 error_handler.collect_error(
@@ -151,7 +155,9 @@ class ColumnBackend(ArraySchemaBackend):
                     column_name,
                     return_check_obj=True,
                 )
-                if schema.parsers:
+                if schema.parsers and validated_column is not None:
+                    # (None: the column failed validation, the errors were
+                    # collected and there is no parsed column to write back)
                     check_obj[column_name] = validated_column
 
         if lazy and error_handler.collected_errors:
